@@ -323,6 +323,43 @@ class Run:
 # ---------------------------------------------------------------------------
 # cases
 
+_ND = None
+
+
+def nd_digits():
+    """value -> every Unicode decimal digit (category Nd) of that value, one list per value 0..9"""
+    global _ND
+    if _ND is None:
+        _ND = {d: [] for d in range(10)}
+        for cp in range(0x80, 0x110000):
+            ch = chr(cp)
+            if unicodedata.category(ch) == "Nd":
+                _ND[unicodedata.digit(ch)].append(ch)
+    return _ND
+
+
+def respell_nameplate(np_, how, rng):
+    """a different STRING with the same integer value (`int()` and `\\d` accept both): leading zeros,
+    the decimal digits of another script (any Unicode Nd block), or both"""
+    nd = nd_digits()
+    if how == "np_zero":
+        return "0" * rng.choice([1, 1, 2, 5]) + np_
+    if how == "np_script":
+        # one script for the whole number: pick a block by the position of its zero
+        k = rng.randrange(len(nd[0]))
+        out = "".join(nd[int(ch)][k] if ch.isascii() else ch for ch in np_)
+        return out
+    if how == "np_mixed":
+        out = "".join(rng.choice(nd[int(ch)] + [ch]) for ch in np_)
+        if out == np_:
+            out = rng.choice(nd[int(np_[0])]) + np_[1:]
+        return rng.choice(["", "0", rng.choice(nd[0])]) + out
+    raise ValueError(how)
+
+
+NP_SPELLINGS = ("np_zero", "np_script", "np_mixed")
+
+
 def transform(code, how, rng):
     """a near-miss of `code` (never NFC-equal to it)"""
     np_, _, rest = code.partition("-")
@@ -338,6 +375,8 @@ def transform(code, how, rng):
         return np_ + "-" + (sw if NFC(sw) != NFC(rest) else rest + "X")
     if how == "nameplate":
         return str(int(np_) + 1) + "-" + rest
+    if how in NP_SPELLINGS:
+        return respell_nameplate(np_, how, rng) + "-" + rest
     if how == "append":
         return code + "-"
     if how == "truncate":
@@ -373,6 +412,21 @@ def corpus(rng):
     # nameplate changed: never meet on a conformant server; and cross-delivered by hand
     out.append(pair_case(rng, codeB=transform(base, "nameplate", rng)))
     out.append(pair_case(rng, codeB=transform(base, "nameplate", rng), cross=True))
+    # same words, nameplates that are different strings of equal integer value: different codes.  On a
+    # conformant server they are different nameplates and never meet; if the clients ever claim the same
+    # nameplate for them, they must still not agree
+    out.append(pair_case(rng, codeB="04-purple-sausages"))
+    out.append(pair_case(rng, codeA="\u0664-purple-sausages", codeB="4-purple-sausages"))           # ARABIC-INDIC FOUR
+    out.append(pair_case(rng, codeA="4-purple-sausages", codeB="\uff14-purple-sausages", modeB="input_before"))  # FULLWIDTH
+    out.append(pair_case(rng, codeA="007-purple-sausages", codeB="7-purple-sausages", modeA="input_before", modeB="set"))
+    out.append(pair_case(rng, codeA="12-purple-sausages", codeB="\u0967\u0968-purple-sausages", modeB="input_after"))  # DEVANAGARI
+    out.append(pair_case(rng, codeB="04-purple-sausages", cross=True))
+    out.append(pair_case(rng, modeA="allocate", modeB="set", xformB="np_zero"))
+    out.append(pair_case(rng, modeA="allocate", modeB="input_before", xformB="np_script"))
+    for how in NP_SPELLINGS:
+        for mode in ("set", "input_before", "input_after"):
+            out.append(pair_case(rng, codeA=transform("23-x-y", how, rng), codeB="23-x-y", modeA=mode, modeB="set"))
+            out.append(pair_case(rng, codeA="23-x-y", codeB=transform("23-x-y", how, rng), modeB=mode, sendsA=["aa"]))
     # appids
     out.append(pair_case(rng, appidB=mb.APPID + "2"))
     out.append(pair_case(rng, appidB=mb.APPID + "2", cross=True))
@@ -414,9 +468,19 @@ def random_case(rng):
         codeB = np_ + "-" + rng.choice([NFC(wd), NFD(wd)])
     elif r < 0.8:
         codeB = transform(np_ + "-" + NFC(wd), rng.choice(["char", "case", "append", "truncate"]), rng)
-    elif r < 0.9:
+    elif r < 0.86:
         codeB = transform(codeA, "nameplate", rng)
         cross = rng.random() < 0.7
+    elif r < 0.93:
+        # same words, same nameplate VALUE, different nameplate string (either side, or both differently)
+        codeB = transform(codeA, rng.choice(NP_SPELLINGS), rng)
+        if rng.random() < 0.3:
+            codeA, codeB = codeB, codeA
+        elif rng.random() < 0.2:
+            codeA = transform(codeA, rng.choice(NP_SPELLINGS), rng)
+            if codeA == codeB:
+                codeB = "0" + codeB
+        cross = rng.random() < 0.2
     else:
         codeB = codeA
         appidB = rng.choice([appidA + "x", NFD(appidA) if NFD(appidA) != appidA else appidA + "y"])
@@ -426,7 +490,7 @@ def random_case(rng):
                                ("allocate", "input_after")])
     kw = {}
     if modeA == "allocate":
-        kw["xformB"] = rng.choice([None, None, "char", "case", "truncate"])
+        kw["xformB"] = rng.choice([None, None, "char", "case", "truncate", "np_zero", "np_script", "np_mixed"])
         appidB = appidA if rng.random() < 0.8 else appidB
     sends = lambda: [bytes(rng.randrange(256) for _ in range(rng.choice([0, 1, 5]))).hex() or "-"  # noqa: E731
                      for _ in range(rng.choice([0, 0, 1, 2]))]
@@ -959,6 +1023,13 @@ def oracle(case, W, run, codeA, codeB, met, derived, pair=None, vers=None):
                     viol.append(("derive-zero", f"n=0 outputs differ for {p!r}/{q!r}"))
     elif not same:
         # ---- different codes (or appids): nothing is ever delivered, and who heard closes scared
+        # (judged by what the clients really did: if they claim the same server nameplate for code strings
+        # that differ — e.g. "04-…" and "4-…" — and so do meet, they must still not agree)
+        claimed = [sorted({f.get("nameplate") for f in W.sent.get(c.index, []) if f.get("type") == "claim"}) for c in (A, B)]
+        if codeA.partition("-")[0] != codeB.partition("-")[0] and claimed[0] and claimed[0] == claimed[1]:
+            tags.append("different-nameplate-strings-claimed-same")
+            if keyA and keyB and keyA[0] == keyB[0]:
+                viol.append(("codes-differ-keys-equal", f"codes {codeA!r}/{codeB!r} differ (nameplates are different strings) but both clients claimed nameplate {claimed[0]} and derived the same key {keyA[0]}"))
         for c in (A, B):
             for name in ("verifier", "versions", "message"):
                 if evs(c, name):
